@@ -70,6 +70,10 @@ type Config struct {
 	// OnStreamConn supplies per-connection stream options (tampering harness).
 	OnStreamConn func(id int) (c2s, s2c simnet.StreamOpts)
 
+	// Stalls: durations a goroutine may be held up for before an atomic write (vsched.Sched.Stalls);
+	// a stall is a scheduling deviation like a goroutine switch.
+	Stalls []time.Duration
+
 	noAutoStart bool
 }
 
@@ -138,6 +142,7 @@ func Run(cfg Config, ch vsched.Chooser, body func(w *World)) *Exec {
 	}
 	s.Horizon = int64(hz)
 	s.MaxSteps = cfg.MaxSteps
+	s.Stalls = cfg.Stalls
 	if s.MaxSteps == 0 {
 		s.MaxSteps = 20_000_000
 	}
